@@ -49,6 +49,12 @@ class HandlerBoom(Exception):
   """What a scripted handler raises."""
 
 
+class HandlerBoomB(BaseException):
+  """What a scripted handler raises when the script says "throwb": an exception
+  outside the Exception hierarchy (like GeneratorExit or a library's own
+  BaseException subclass)."""
+
+
 class _Abort(BaseException):
   pass
 
@@ -262,6 +268,8 @@ class Adapter(object):
         rv = args["rv"]
         if rv == "throw":
           raise HandlerBoom("scripted")
+        if rv == "throwb":
+          raise HandlerBoomB("scripted")
         if rv == "sethalt":
           ev.halt = True
           return None
@@ -453,7 +461,7 @@ class Adapter(object):
             self.auto = None
       except revent.ReventError:
         return O0(k="rejected", n=self._count())
-      except HandlerBoom:
+      except (HandlerBoom, HandlerBoomB):
         return O0(k="simple" if simple else "end", res="exc", n=self._count())
       k = "simple" if simple else "end"
       if res is None:
